@@ -6,7 +6,13 @@ Correspondence (model = `lean/PercevalModel/Model/C08.lean`, run through `Driver
   instance driven through a shuffled history with repeats (memo + `_cache` in play) and on fresh
   instances; `type`, `max_detections`; `threshold()`, `pnr()`; constructor rejections;
 * `BSLayeredPPNR(L, r).detect(n)` (history on one instance + fresh) and the SLOS distribution of
-  `create_circuit()` against the model's assumed leaf law;
+  `create_circuit()` against the model's leaf law;
+* `BSLayeredPPNR(L, r).create_circuit()` itself (model `Model/C08Circ.lean`, op `bscirc`): the components it adds,
+  `compute_unitary()` entry by entry against the model's exact unitary for reflectivities with rational
+  amplitudes (Pythagorean triples), the first-column moduli against the path weights r^zeros (1-r)^ones for
+  every reflectivity, and the backend's distribution of |n,0,..,0> against (a) the multinomial oracle,
+  (b) the Fock specification |perm(U[t|s])|^2/(n! prod t!) evaluated by Lean on the model unitary (Mathlib
+  permanent) and (c) the model's leaf law — (b) = (c) is theorem `bsTree_leaf_law_from_fock`;
 * `get_detection_type` exhaustively over short detector lists, `check_heralds_detectors`;
 * `simulate_detectors(dist, detectors, min_photons)` over every per-mode mixture of
   {None, PNR, threshold, interleaved, BS tree} for small m, random rational distributions,
@@ -19,7 +25,10 @@ Correspondence (model = `lean/PercevalModel/Model/C08.lean`, run through `Driver
   post-selection, re-queried; ONE `Simulator` queried through `probs_svd` with a sequence of detector lists
   (all-PNR = backend heralds mask on, imperfect = mask off), heralds expecting up to 2 photons: the result is the
   detector kernels applied to the complete theoretical distribution, THEN the heralds / post-selection read on the
-  readings (model: `Model/C08Glue.lean`, op `tail`); the same through `Processor.samples()` (support + 6-sigma TEST);
+  readings (model: `Model/C08Glue.lean`, op `tail`); and the WHOLE tail inside the model (op `probs`, `probsSvd`:
+  normalize, simulate_detectors, post_select_distribution with PostSelect expression, removal of the heralded
+  modes, logical_perf): results, physical_perf and logical_perf compared directly, nothing post-processed by the
+  harness; the same through `Processor.samples()` (support + 6-sigma TEST);
 * `simulate_detectors_sample` / `Processor.samples()` with detectors: every draw lies in the support of the
   mode-wise kernel product (and a 6-sigma frequency TEST against the law).
 
@@ -448,6 +457,144 @@ def bs_cases(chk):
             cases.append({"L": L, "r": list(r), "ns": ns, "occ": rng.choice([2, 3]) if L <= 2 or chk.thorough else None})
     for L, r in [(0, (1, 2)), (1, (-1, 5)), (1, (11, 10))]:
         cases.append({"L": L, "r": list(r), "ns": [2]})
+    return cases
+
+
+# ------------------------------------------------------------------------------------------------
+# C'. BSLayeredPPNR.create_circuit(): components, unitary, first column = path weights, Fock law of |n,0,..,0>
+# ------------------------------------------------------------------------------------------------
+# reflectivities with rational sqrt(r), sqrt(1-r): r = (a/h)^2, c = a/h, s = i*b/h  (a^2 + b^2 = h^2)
+PYTHAGOREAN = [(3, 4, 5), (4, 3, 5), (5, 12, 13), (12, 5, 13), (8, 15, 17), (0, 1, 1), (1, 0, 1), (20, 21, 29)]
+
+
+def leaf_weight(L, k, r):
+    """the property's physical description: a photon reaches leaf k of the depth-L tree along the path given by the L
+    bits of k (first layer = most significant bit), taking the first output (weight r) on a 0 bit"""
+    ones = bin(k).count("1")
+    return r ** (L - ones) * (1 - r) ** ones
+
+
+def multinomial_law(weights, n):
+    """{state: Fraction}: n independent photons over the leaves"""
+    out = {}
+
+    def rec(i, left, cur, p):
+        if i == len(weights) - 1:
+            out[tuple(cur + [left])] = p * weights[i] ** left / factorial(left)
+            return
+        for t in range(left, -1, -1):
+            rec(i + 1, left - t, cur + [t], p * weights[i] ** t / factorial(t))
+    rec(0, n, [], Fraction(factorial(n)))
+    return out
+
+
+def run_bscirc_case(chk, case):
+    import math
+    import numpy as np
+    from perceval.components import BSLayeredPPNR
+    from perceval.backends import SLOSBackend
+    from perceval.utils import BasicState
+    L = case["L"]
+    if case.get("tri") is not None:
+        a, b, h = case["tri"]
+        r = Fraction(a * a, h * h)
+        req = {"op": "bscirc", "L": L, "r": core.rat(r), "c": [core.rat(Fraction(a, h)), "0"],
+               "s": ["0", core.rat(Fraction(b, h))]}
+        if case.get("n") is not None:
+            req["n"] = case["n"]
+    else:
+        r = Fraction(case["r"][0], case["r"][1])
+        req = {"op": "bscirc", "L": L, "r": core.rat(r)}
+    rf = float(r)
+    rep = chk.lean.ask(req)
+    if "err" in rep:
+        return ("broken", "model-vs-code", f"model rejects the tree circuit L={L} r={r}: {rep['err']}", case)
+    inst = BSLayeredPPNR(L, rf)
+    circ = inst.create_circuit()
+    N = 2 ** L
+    if circ.m != N or rep["m"] != N:
+        return ("violation", "bs-tree-circuit-size", f"create_circuit() of BSLayeredPPNR({L}) has {circ.m} modes", case)
+    # components (diagnostic only: two lists of components with the same unitary are the same circuit)
+    comps = []
+    for rng_, comp in circ:
+        kind = type(comp).__name__
+        if kind == "PERM":
+            comps.append(["PERM", rng_[0], list(comp.perm_vector)])
+        else:
+            comps.append([kind, rng_[0]])
+    chk.count("bscirc-components", "as-modelled" if comps == rep["comps"] else
+              ("reordered" if sorted(map(json.dumps, comps)) == sorted(map(json.dumps, rep["comps"])) else "different"))
+    U = np.array(circ.compute_unitary(), dtype=complex)
+    # (1) direct oracle on the real circuit: first-column moduli = path weights (no Lean involved)
+    for k in range(N):
+        w = leaf_weight(L, k, r)
+        if not core.close(abs(U[k, 0]) ** 2, float(w), TOL):
+            return ("violation", "bs-tree-leaf-weights",
+                    f"BSLayeredPPNR({L}, {rf}).create_circuit(): |U[{k},0]|^2 = {abs(U[k, 0]) ** 2!r}, a photon reaches leaf "
+                    f"{k} with probability r^{L - bin(k).count('1')}(1-r)^{bin(k).count('1')} = {float(w)!r}", case)
+        if Fraction(rep["weights"][k]) != w or rep["ones"][k] != bin(k).count("1"):
+            return ("broken", "model-vs-code", f"model path weight of leaf {k}: {rep['weights'][k]}, oracle {w}", case)
+    chk.branch("bscirc-weights")
+    if L >= 2:
+        chk.branch("bscirc-with-perm")
+    if case.get("tri") is None:
+        chk.case(("bscirc", L, str(r)), nontrivial=L >= 2, sample={"L": L, "r": str(r), "col0_sq": [float(abs(U[k, 0]) ** 2) for k in range(N)]})
+        return None
+    # (2) exact unitary of the model against compute_unitary()
+    for i in range(N):
+        for k in range(N):
+            mre, mim = (float(Fraction(x)) for x in rep["U"][i][k])
+            if not (core.close(U[i, k].real, mre, TOL) and core.close(U[i, k].imag, mim, TOL)):
+                return ("broken", "bs-tree-unitary",
+                        f"BSLayeredPPNR({L}, {rf}).create_circuit().compute_unitary()[{i},{k}] = {U[i, k]!r}, model "
+                        f"{mre!r}+{mim!r}j", case)
+    for k in range(N):
+        if rep["col0"][k] != rep["U"][k][0]:
+            return ("broken", "model-internal", f"leafP differs from the model unitary's first column at {k}", case)
+    chk.branch("bscirc-unitary")
+    n = case.get("n")
+    if n is None:
+        chk.case(("bscirc", L, str(r), "U"), nontrivial=L >= 2, sample={"L": L, "r": str(r)})
+        return None
+    # (3) the backend's distribution of |n,0,..,0> against: the multinomial oracle (direct), the Fock specification on
+    #     the model unitary (Mathlib permanent) and the model's leaf law treeOcc (theorem bsTree_leaf_law_from_fock)
+    slos = SLOSBackend()
+    slos.set_circuit(circ)
+    slos.set_input_state(BasicState([n] + [0] * (N - 1)))
+    got = {tuple(s_): float(p) for s_, p in slos.prob_distribution().items()}
+    oracle = multinomial_law([leaf_weight(L, k, r) for k in range(N)], n)
+    why = cmp_dist(got, oracle)
+    if why is not None:
+        return ("violation", "bs-tree-leaf-law",
+                f"SLOS distribution of |{n},0,..> through BSLayeredPPNR({L}, {rf}).create_circuit() is not multinomial in the "
+                f"path weights: {why}", case)
+    fock = {tuple(t): Fraction(p) for t, p in rep["fock"]}
+    occ = {tuple(t): Fraction(p) for t, p in rep["occ_at"]}
+    if len(fock) != len(rep["fock"]) or rep["occ_len"] != len(fock):
+        return ("broken", "model-internal", "model state lists have repeated / missing states", case)
+    if fock != oracle or occ != oracle:
+        bad = [t for t in oracle if fock.get(t) != oracle[t] or occ.get(t) != oracle[t]][:1]
+        return ("broken", "model-vs-code", f"model Fock law / leaf law differ from the multinomial oracle at {bad}", case)
+    chk.branch("bscirc-fock-law")
+    if any(max(t) >= 2 for t, p in got.items() if p > 0):
+        chk.branch("bscirc-bunched-leaf")
+    chk.case(("bscirc", L, str(r), n), nontrivial=n >= 2, sample={"L": L, "r": str(r), "n": n, "states": len(got)})
+    return None
+
+
+def bscirc_cases(chk):
+    rng = chk.rng
+    cases = []
+    for L in (1, 2, 3):
+        for r in BS_RS + [(3, 7), (99, 100)]:
+            cases.append({"L": L, "r": list(r)})
+        tris = PYTHAGOREAN if chk.thorough else PYTHAGOREAN[:4] + rng.sample(PYTHAGOREAN[4:], 2)
+        for tri in tris:
+            nmax = {1: 5, 2: chk.pick(3, 4), 3: chk.pick(2, 3)}[L]
+            ns = list(range(0, nmax + 1)) if chk.thorough else sorted(set([nmax, rng.randint(0, nmax), 2]))
+            cases.append({"L": L, "tri": list(tri)})
+            for n in ns:
+                cases.append({"L": L, "tri": list(tri), "n": n})
     return cases
 
 
@@ -1042,6 +1189,40 @@ def judge_heralded(chk, what, got, perf, logical, base_dist, dets, minph, herald
         why = f"physical_perf {perf!r}, model {rep['perf']}"
     if why is not None:
         return ("broken", "model-vs-code", f"{label} vs model: {why}", case)
+    # the WHOLE tail inside the model (probsSvd: normalize, simulate_detectors, post_select_distribution with the
+    # removal of the heralded modes, logical_perf) — nothing applied by the harness
+    rep2 = chk.lean.ask({"op": "probs", "m": m, "dist": [[list(s), core.rat(p)] for s, p in base_dist],
+                         "dets": None if dets is None else [lean_det(d) for d in dets], "minph": F, "minp": MINP,
+                         "heralds": [list(h) for h in heralds], "ps": [list(c) for c in (ps or [])], "keep": False})
+    if "err" in rep2:
+        return ("broken", "model-vs-code", f"{label}: model (probs) rejects the case: {rep2}", case)
+    full = {}
+    for t, q in rep2["dist"]:
+        if tuple(t) in full:
+            return ("broken", "model-internal", f"{label}: model result holds the state {t} twice", case)
+        full[tuple(t)] = Fraction(q)
+    why = cmp_dist(got, full)
+    if why is None and not core.close(perf, float(Fraction(rep2["perf"])), TOL):
+        why = f"physical_perf {perf!r}, model {rep2['perf']}"
+    if why is None and not core.close(logical, float(Fraction(rep2["logical"])), TOL):
+        why = f"logical_perf {logical!r}, model {rep2['logical']}"
+    if why is not None:
+        return ("broken", "model-vs-code", f"{label} vs model of the whole probs_svd tail: {why}", case)
+    chk.branch("model-full-tail")
+    if ps:
+        chk.branch("model-full-tail-postselect")
+    if heralds and full:
+        chk.branch("model-full-tail-heralds-removed")
+    if not rep["compatible"]:
+        chk.branch("model-full-tail-incompatible")
+    # the proved identity physical_perf * logical_perf * result = conditioned law, on the REAL outputs (exact oracle)
+    if rep["compatible"] and s_mass > 0:
+        for key, q in s_res.items():
+            lhs = perf * logical * got.get(key, 0.0)
+            if not core.close(lhs, float(s_acc * q * s_perf), 1e-8):
+                return ("violation", "heralds-read-before-detectors" if heralds else "processor-detectors-law",
+                        f"{label}: physical_perf*logical_perf*results[{key}] = {lhs!r}, conditioned law "
+                        f"{float(s_acc * q * s_perf)!r}", case)
     return None
 
 
@@ -1500,6 +1681,8 @@ def dispatch(chk, kind, case):
         return run_detect_case(chk, case)
     if kind == "bs":
         return run_bs_case(chk, case)
+    if kind == "bscirc":
+        return run_bscirc_case(chk, case)
     if kind == "dtype":
         return run_dtype_case(chk, case["dets"], case.get("none_arg", False))
     if kind == "heralds":
@@ -1531,7 +1714,9 @@ def setup(chk):
 def run(chk: core.Check):
     setup(chk)
     chk.rule = ("exhaustive (wires, max, photons) box of Detector.detect on long-lived and fresh instances; "
-                "BSLayeredPPNR over (layers, reflectivity, photons); every detector list over a 7-letter alphabet up to "
+                "BSLayeredPPNR over (layers, reflectivity, photons); BSLayeredPPNR.create_circuit() over layers 1..3 x 12 "
+                "reflectivities (path weights) and 6-8 Pythagorean reflectivities (exact unitary, Fock law of |n,0..0>); "
+                "every detector list over a 7-letter alphabet up to "
                 "length 3/4 for get_detection_type; simulate_detectors over every per-mode mixture of "
                 "{none, pnr, threshold, interleaved, bs-tree} for m<=2/3 plus random m<=4, every filter 0..n+1/None; "
                 "Processor.probs() with detectors; one detector instance through histories mixing detect / filtered one-mode "
@@ -1543,8 +1728,12 @@ def run(chk: core.Check):
                 "signatures; non-trivial = a multi-wire or tree detector hit by >=2 photons, resp. a non-PNR list on a "
                 "distribution with a >=2-photon state")
     chk.assumptions = [
-        "SLOSBackend.prob_distribution() on BSLayeredPPNR.create_circuit() with |n,0,..,0> is the multinomial leaf law "
-        "(external exqalibur kernel; compared against the model's treeOcc on every run, not proved)",
+        "SLOSBackend.prob_distribution() implements the Fock amplitude specification |perm(U[t|s])|^2/(prod s! prod t!) "
+        "on BSLayeredPPNR.create_circuit() (external exqalibur kernel, the subject of C02); GIVEN the specification the "
+        "multinomial leaf law treeOcc is a theorem (bsTree_leaf_law_from_fock) about the model of create_circuit(), which is "
+        "compared with the real compute_unitary() and the real backend distribution on every run",
+        "exact comparison of compute_unitary() needs rational beam-splitter amplitudes: done for the Pythagorean "
+        "reflectivities (a/h)^2; for the other reflectivities only the first-column moduli (path weights) are compared",
         "global min_p = 1e-16: ProbabilityDistribution.add drops contributions <= min_p; the model does the same; "
         "mass theorems are stated for min_p <= 0 (difference <= 1e-16 per entry, below the 1e-9 tolerance)",
         "simulate_detectors is exercised at prob_threshold = 0 (its default); Processor.probs() at precision = 0",
@@ -1555,12 +1744,14 @@ def run(chk: core.Check):
         "heralded cases: the theoretical distribution is the one the same circuit gives through a detector-free, herald-free "
         "Processor (SLOS, precision 0); perfect source, one Fock input state; photon filter <= photons outside the heralds; "
         "herald incompatible with its detector (value > max_detections): probs_svd returns early with physical_perf = 1 "
-        "(as coded, physical_perf not compared there); logical_perf is compared with the exact oracle only (not modelled)",
+        "(as coded; compared with the model of the whole tail, not with the oracle); logical_perf is compared with the exact "
+        "oracle and with the model (probsSvd)",
         "Processor.samples() with heralds: support membership is decided, frequencies are a 6-sigma statistical TEST; cases whose "
         "acceptance probability is below 3% are skipped",
     ]
     chk.required_branches = ["ppnr-fold", "ppnr-nofold", "more-photons-than-wires", "threshold", "pnr", "cache-hit",
                              "minp-trim", "bs-tree", "bs-unbalanced", "bs-cache-hit", "bs-leaf-law", "rejected",
+                             "bscirc-weights", "bscirc-with-perm", "bscirc-unitary", "bscirc-fock-law", "bscirc-bunched-leaf",
                              "dtype-PNR", "dtype-Threshold", "dtype-PPNR", "dtype-Mixed",
                              "heralds-ok", "heralds-incompatible",
                              "sim-pnr-branch", "sim-threshold-branch", "sim-general-branch", "sim-mixed-kinds",
@@ -1573,7 +1764,8 @@ def run(chk: core.Check):
                              "proc-requery", "simulator-session", "sim-herald-on-ppnr", "sim-herald-ppnr-bunched",
                              "proc-herald-saturated", "sim-herald-saturated", "sim-herald-incompatible", "sim-mask-path",
                              "session-mask-then-imperfect", "session-imperfect-then-mask",
-                             "model-mask-on", "model-mask-off",
+                             "model-mask-on", "model-mask-off", "model-full-tail", "model-full-tail-postselect",
+                             "model-full-tail-heralds-removed", "model-full-tail-incompatible",
                              "detector-session", "session-one-mode-sim", "session-filter-rejects-reading",
                              "session-detect-after-filtered-sim",
                              "processor-samples-heralds", "hprocsample-frequency-test", "smp-herald-on-ppnr",
@@ -1598,6 +1790,7 @@ def run(chk: core.Check):
 
     go("detect", detect_cases(chk))
     go("bs", bs_cases(chk))
+    go("bscirc", bscirc_cases(chk))
     # get_detection_type: exhaustive over short lists
     for ln in range(0, chk.pick(3, 4) + 1):
         for dets in itertools.product(ALPHABET, repeat=ln):
